@@ -92,8 +92,10 @@ func toNumber(v any) any {
 		uint:
 		return v
 	case string:
-		if v == "" || v == "null" {
-			// UnmarshalJSON treats these as "no value" and reports no error
+		if !isJSONNumber(v) {
+			// UnmarshalJSON accepts more than the JSON number grammar (signs,
+			// bare fractions, leading zeros) and treats "" and "null" as "no
+			// value" without reporting an error
 			return nil
 		}
 
@@ -106,6 +108,55 @@ func toNumber(v any) any {
 	}
 
 	return nil
+}
+
+func isJSONNumber(s string) bool {
+	digits := func(i int) int {
+		for i < len(s) && s[i] >= '0' && s[i] <= '9' {
+			i++
+		}
+
+		return i
+	}
+
+	i := 0
+	if i < len(s) && s[i] == '-' {
+		i++
+	}
+
+	switch {
+	case i < len(s) && s[i] == '0':
+		i++
+	case i < len(s) && s[i] >= '1' && s[i] <= '9':
+		i = digits(i)
+	default:
+		return false
+	}
+
+	if i < len(s) && s[i] == '.' {
+		j := digits(i + 1)
+		if j == i+1 {
+			return false
+		}
+
+		i = j
+	}
+
+	if i < len(s) && (s[i] == 'e' || s[i] == 'E') {
+		i++
+		if i < len(s) && (s[i] == '+' || s[i] == '-') {
+			i++
+		}
+
+		j := digits(i)
+		if j == i {
+			return false
+		}
+
+		i = j
+	}
+
+	return i == len(s)
 }
 
 func toString(v any) (any, error) {
